@@ -1,6 +1,324 @@
-/- Proofs/C20: helper lemmas for Props/C20. -/
-import CfVerif.Model.C20
+/- Proofs/C20: evaluation of the components of `parse_uri` on printed fields; helper lemmas for Props/C20. -/
+import CfVerif.Proofs.C20Parse
+set_option linter.unusedSimpArgs false
 namespace CfVerif.C20
 open CfVerif
+
+theorem netlocLenBound_eq : Gen.C20.netlocLenBound = 10 := by decide
+
+/-- a dongle id of fewer than ten digits is the device index -/
+theorem dongleOf_digits (serials : List Str) (N : Str) (hne : N ≠ []) (hd : ∀ c ∈ N, isDigit c = true) (hlen : N.length < 10) :
+    dongleOf serials N = .ok (decVal N) := by
+  have h1 : N.all isDigit = true := by rw [List.all_eq_true]; exact hd
+  have h2 : N.isEmpty = false := by cases N with
+    | nil => exact absurd rfl hne
+    | cons _ _ => rfl
+  simp [dongleOf, netlocLenBound_eq, hlen, h1, h2]
+
+theorem dongleOf_index (serials : List Str) (d : Nat) (h : d < 10 ^ 9) : dongleOf serials (natStr d) = .ok d := by
+  have := dongleOf_digits serials (natStr d) (natStr_ne_nil d) (natStr_digits d) (by have := natStr_length (k := 8) h; omega)
+  rwa [decVal_natStr] at this
+
+/-- any other dongle id is looked up, upper-cased, among the serial numbers -/
+theorem dongleOf_serial (serials : List Str) (N : Str) (i : Nat) (hN : ¬ (N.length < 10 ∧ N ≠ [] ∧ ∀ c ∈ N, isDigit c = true))
+    (hi : indexOf? (N.map upperAscii) serials = some i) : dongleOf serials N = .ok i := by
+  have : (decide (N.length < Gen.C20.netlocLenBound) && (!N.isEmpty && N.all isDigit)) = false := by
+    rw [netlocLenBound_eq]
+    cases hb : (decide (N.length < 10) && (!N.isEmpty && N.all isDigit)) with
+    | false => rfl
+    | true =>
+      exfalso; apply hN
+      simp only [Bool.and_eq_true, decide_eq_true_eq, Bool.not_eq_true', List.all_eq_true] at hb
+      exact ⟨hb.1, by intro e; subst e; simp at hb, hb.2.2⟩
+  simp [dongleOf, this, hi]
+
+theorem rateOf_text (r : Rate) : rateOf r.text = r.value := by cases r <;> decide
+
+theorem rateLimitOf_nil : rateLimitOf [] = .ok none := by decide
+theorem parseQsl_nil : parseQsl [] = .ok [] := by decide
+
+theorem unquote_noPercent : ∀ s : Str, (∀ c ∈ s, c ≠ '%') → unquote s = .ok s
+  | [], _ => rfl
+  | [_], _ => rfl
+  | [_, _], _ => rfl
+  | c :: a :: b :: rest, h => by
+    have hc : c ≠ '%' := h c (by simp)
+    have ih := unquote_noPercent (a :: b :: rest) (fun d hd => h d (by simp [hd]))
+    simp [unquote, hc, ih, Except.map]
+
+theorem plusToSpace_noPlus (s : Str) (h : ∀ c ∈ s, c ≠ '+') : plusToSpace s = s := by
+  unfold plusToSpace
+  induction s with
+  | nil => rfl
+  | cons c s ih => simp [h c (by simp), ih (fun d hd => h d (by simp [hd]))]
+
+
+theorem qslField_optText (kv : Str × Str) (h : OptOk kv) : qslField (optText kv) = .ok (some kv) := by
+  obtain ⟨h1, h2, h3⟩ := h
+  have hs : splitFirst '=' (optText kv) = (kv.1, some kv.2) := splitFirst_append _ _ _ (fun c hc => (h1 c hc).2.2.1)
+  have u1 := unquote_noPercent kv.1 (fun c hc => (h1 c hc).2.2.2.2)
+  have u2 := unquote_noPercent kv.2 (fun c hc => (h2 c hc).2.2.2.2)
+  have p1 := plusToSpace_noPlus kv.1 (fun c hc => (h1 c hc).2.2.2.1)
+  have p2 := plusToSpace_noPlus kv.2 (fun c hc => (h2 c hc).2.2.2.1)
+  simp [qslField, hs, h3, p1, p2, u1, u2]
+
+theorem optText_noAmp (kv : Str × Str) (h : OptOk kv) : ∀ c ∈ optText kv, c ≠ '&' := by
+  intro c hc
+  unfold optText at hc
+  rcases List.mem_append.mp hc with hc | hc
+  · exact (h.1 c hc).2.1
+  · rcases List.mem_cons.mp hc with rfl | hc
+    · decide
+    · exact (h.2.1 c hc).2.1
+
+theorem qslFields_split : ∀ (opts : List (Str × Str)), opts ≠ [] → (∀ kv ∈ opts, OptOk kv) →
+    qslFields (splitOn '&' (queryText opts)) = .ok opts
+  | [], h, _ => absurd rfl h
+  | [kv], _, h => by
+    have hk := h kv (by simp)
+    simp [queryText, splitOn_noSep '&' _ (optText_noAmp kv hk), qslFields, qslField_optText kv hk]
+  | kv :: kv2 :: rest, _, h => by
+    have hk := h kv (by simp)
+    have ih := qslFields_split (kv2 :: rest) (by simp) (fun x hx => h x (by simp [hx]))
+    simp only [queryText]
+    rw [splitOn_append '&' _ _ (optText_noAmp kv hk)]
+    simp only [qslFields, qslField_optText kv hk]
+    rw [ih]
+
+theorem optText_ne_nil (kv : Str × Str) : optText kv ≠ [] := by unfold optText; simp
+
+theorem queryText_ne_nil : ∀ (opts : List (Str × Str)), opts ≠ [] → queryText opts ≠ []
+  | [], h => absurd rfl h
+  | [kv], _ => optText_ne_nil kv
+  | kv :: _ :: _, _ => by simp [queryText, optText]
+
+/-- `parse_qsl` reads back the options of a query written without escapes -/
+theorem parseQsl_queryText (opts : List (Str × Str)) (h : ∀ kv ∈ opts, OptOk kv) : parseQsl (queryText opts) = .ok opts := by
+  cases opts with
+  | nil => rfl
+  | cons kv rest =>
+    have hne := queryText_ne_nil (kv :: rest) (by simp)
+    simp only [parseQsl, hne, if_false]
+    exact qslFields_split _ (by simp) h
+
+
+/-! ### character classes -/
+
+theorem alnum_chars {c : Char} (h : (48 ≤ c.toNat ∧ c.toNat ≤ 57) ∨ (65 ≤ c.toNat ∧ c.toNat ≤ 90) ∨ (97 ≤ c.toNat ∧ c.toNat ≤ 122)) :
+    NetlocChar c ∧ OptChar c := by
+  have ne : ∀ d : Char, d.toNat < 48 ∨ (57 < d.toNat ∧ d.toNat < 65) ∨ (90 < d.toNat ∧ d.toNat < 97) ∨ 122 < d.toNat → c ≠ d :=
+    fun d hd => char_ne_of_toNat (by omega)
+  have hascii : isAscii c = true := by simp [isAscii]; omega
+  have hunsafe : unsafeChar c = false := by
+    simp [unsafeChar, ne '\t' (by decide), ne '\r' (by decide), ne '\n' (by decide)]
+  have hdelim : netlocDelim c = false := by
+    simp [netlocDelim, ne '/' (by decide), ne '?' (by decide), ne '#' (by decide)]
+  exact ⟨⟨⟨hascii, hunsafe, hdelim⟩, ne '[' (by decide), ne ']' (by decide)⟩,
+    ⟨hascii, hunsafe, ne '#' (by decide)⟩, ne '&' (by decide), ne '=' (by decide), ne '+' (by decide), ne '%' (by decide)⟩
+
+theorem digit_chars {c : Char} (h : isDigit c = true) : NetlocChar c ∧ OptChar c :=
+  alnum_chars (Or.inl (isDigit_iff.mp h))
+
+theorem isHex_range {c : Char} (h : IsHex c) :
+    (48 ≤ c.toNat ∧ c.toNat ≤ 57) ∨ (65 ≤ c.toNat ∧ c.toNat ≤ 90) ∨ (97 ≤ c.toNat ∧ c.toNat ≤ 122) := by
+  unfold IsHex hexVal? at h
+  have e : c.toNat = c.val.toNat := rfl
+  split at h
+  · rename_i hc
+    simp only [Char.le_def, UInt32.le_iff_toNat_le] at hc
+    have h0 : ('0' : Char).val.toNat = 48 := by decide
+    have h9 : ('9' : Char).val.toNat = 57 := by decide
+    omega
+  · split at h
+    · rename_i _ hc
+      simp only [Char.le_def, UInt32.le_iff_toNat_le] at hc
+      have h0 : ('a' : Char).val.toNat = 97 := by decide
+      have h9 : ('f' : Char).val.toNat = 102 := by decide
+      omega
+    · split at h
+      · rename_i _ _ hc
+        simp only [Char.le_def, UInt32.le_iff_toNat_le] at hc
+        have h0 : ('A' : Char).val.toNat = 65 := by decide
+        have h9 : ('F' : Char).val.toNat = 70 := by decide
+        omega
+      · simp at h
+
+theorem hex_chars {c : Char} (h : IsHex c) : NetlocChar c ∧ OptChar c := alnum_chars (isHex_range h)
+
+theorem rate_chars (r : Rate) : r.text ≠ [] ∧ ∀ c ∈ r.text, FieldChar c := by cases r <;> decide
+
+/-! ### `interpret` on successful components -/
+
+theorem rateLimitOf_of_fields {q : Str} {fields : List (Str × Str)} (h : parseQsl q = .ok fields) :
+    rateLimitOf q = match qsFirst Gen.C20.rateLimitKey.toList fields with
+      | none => .ok none
+      | some v => (pyInt v).map some := by
+  simp only [rateLimitOf, h]
+  cases qsFirst Gen.C20.rateLimitKey.toList fields <;> rfl
+
+def rateOfSegs : List Str → Nat
+  | _ :: r :: _ => rateOf r
+  | _ => Gen.C20.datarateDefault
+
+def channelOfSegs : List Str → Except Err Int
+  | [] => .ok Gen.C20.channelDefault
+  | c :: _ => pyInt c
+
+def addrOfSegs : List Str → Except Err (List Nat)
+  | _ :: _ :: a :: _ => addrOf a
+  | _ => .ok Gen.C20.addressDefault
+
+theorem interpret_ok {serials : List Str} {N : Str} {segs : List Str} {q : Str} {fields : List (Str × Str)}
+    {devid : Nat} {ch : Int} {addr : List Nat} {lim : Option Int}
+    (hq : parseQsl q = .ok fields) (hd : dongleOf serials N = .ok devid)
+    (hc : channelOfSegs segs = .ok ch) (ha : addrOfSegs segs = .ok addr)
+    (hl : rateLimitOf q = .ok lim) :
+    interpret serials N segs q = .ok ⟨devid, ch, rateOfSegs segs, addr, lim⟩ := by
+  unfold interpret rateOfSegs
+  rcases segs with _ | ⟨c, _ | ⟨r, _ | ⟨a, t⟩⟩⟩ <;>
+    simp only [channelOfSegs, addrOfSegs] at hc ha <;>
+    simp [hq, hd, hc, ha, hl, bind, Except.bind, pure, Except.pure]
+
+/-- master lemma: a URI written with `mkUri` whose components parse, parses to those components -/
+theorem parse_fields {serials : List Str} {dongle : Str} {devid : Nat} (hdc : ∀ c ∈ dongle, NetlocChar c)
+    (hdp : dongleOf serials dongle = .ok devid)
+    {segs : List Str} (hs : ∀ s ∈ segs, s ≠ [] ∧ ∀ c ∈ s, FieldChar c) (trailing : Bool)
+    {query : Option Str} (hq : ∀ q, query = some q → ∀ c ∈ q, QueryChar c)
+    {fields : List (Str × Str)} (hf : parseQsl (query.getD []) = .ok fields)
+    {ch : Int} {addr : List Nat} {lim : Option Int}
+    (hc : channelOfSegs segs = .ok ch) (ha : addrOfSegs segs = .ok addr)
+    (hl : rateLimitOf (query.getD []) = .ok lim) :
+    parseUri serials (mkUri dongle segs trailing query) = .ok ⟨devid, ch, rateOfSegs segs, addr, lim⟩ := by
+  rw [parseUri_mkUri serials dongle segs trailing query hdc hs hq]
+  exact interpret_ok hf hdp hc ha hl
+
+theorem rateLimitKey_eq : Gen.C20.rateLimitKey.toList = "rate_limit".toList := by decide
+
+theorem optChar_query {c : Char} (h : OptChar c) : QueryChar c := h.1
+
+theorem queryText_chars : ∀ (opts : List (Str × Str)), (∀ kv ∈ opts, OptOk kv) → ∀ c ∈ queryText opts, QueryChar c
+  | [], _ => by intro c hc; simp [queryText] at hc
+  | [kv], h => by
+    intro c hc
+    have hk := h kv (by simp)
+    simp only [queryText, optText, List.mem_append, List.mem_cons] at hc
+    rcases hc with hc | rfl | hc
+    · exact (hk.1 c hc).1
+    · decide
+    · exact (hk.2.1 c hc).1
+  | kv :: kv2 :: rest, h => by
+    intro c hc
+    have hk := h kv (by simp)
+    have ih := queryText_chars (kv2 :: rest) (fun x hx => h x (by simp [hx]))
+    simp only [queryText, optText, List.mem_append, List.mem_cons] at hc
+    rcases hc with (hc | rfl | hc) | rfl | hc
+    · exact (hk.1 c hc).1
+    · decide
+    · exact (hk.2.1 c hc).1
+    · decide
+    · exact ih c hc
+
+theorem natStr_optOk (key : Str) (hk : ∀ c ∈ key, OptChar c) (l : Nat) : OptOk (key, natStr l) :=
+  ⟨hk, fun c hc => (digit_chars (natStr_digits l c hc)).2, natStr_ne_nil l⟩
+
+theorem rateLimit_key_chars : ∀ c ∈ "rate_limit".toList, OptChar c := by decide
+
+theorem limitQuery_eq (l : Nat) : limitQuery (some l) = some (queryText [("rate_limit".toList, natStr l)]) := by
+  have : "rate_limit=".toList = "rate_limit".toList ++ ['='] := by decide
+  simp [limitQuery, queryText, optText, this]
+
+/-- what `parse_uri` reads from the query written by `limitQuery` -/
+theorem limitQuery_spec (limit : Option Nat) (hl : ∀ l, limit = some l → l < 10 ^ 4300) :
+    (∀ q, limitQuery limit = some q → ∀ c ∈ q, QueryChar c) ∧
+    (∃ fields, parseQsl ((limitQuery limit).getD []) = .ok fields) ∧
+    rateLimitOf ((limitQuery limit).getD []) = .ok (limit.map Int.ofNat) := by
+  cases limit with
+  | none => exact ⟨fun q h => by simp [limitQuery] at h, ⟨[], rfl⟩, rateLimitOf_nil⟩
+  | some l =>
+    have hok : ∀ kv ∈ [("rate_limit".toList, natStr l)], OptOk kv := by
+      intro kv hkv; simp at hkv; subst hkv; exact natStr_optOk _ rateLimit_key_chars l
+    have hp := parseQsl_queryText _ hok
+    refine ⟨?_, ?_, ?_⟩
+    · intro q hq; rw [limitQuery_eq] at hq; injection hq with hq; subst hq; exact queryText_chars _ hok
+    · rw [limitQuery_eq]; exact ⟨_, hp⟩
+    · rw [limitQuery_eq]
+      simp only [Option.getD_some]
+      rw [rateLimitOf_of_fields hp]
+      have hint := pyInt_natStr (n := l) (k := 4299) (hl l rfl) (by decide)
+      simp [qsFirst, rateLimitKey_eq, hint, Except.map]
+
+/-! ### the property theorems (stated in Props/C20) -/
+
+theorem Dongle.chars {serials : List Str} {s : Str} {i : Nat} (h : Dongle serials s i) : ∀ c ∈ s, NetlocChar c :=
+  match h with
+  | .index d _ => fun c hc => (digit_chars (natStr_digits d c hc)).1
+  | .serial _ _ hc _ _ => hc
+
+theorem Dongle.parses {serials : List Str} {s : Str} {i : Nat} (h : Dongle serials s i) : dongleOf serials s = .ok i :=
+  match h with
+  | .index d hd => dongleOf_index serials d hd
+  | .serial _ _ _ hnot hidx => dongleOf_serial serials _ _ hnot hidx
+
+theorem parse_print_aux (serials : List Str) (dongle : Str) (devid : Nat) (hd : Dongle serials dongle devid)
+    (ch : Nat) (hch : ch ≤ 125) (rate : Rate)
+    (A : Str) (hA1 : 1 ≤ A.length) (hA10 : A.length ≤ 10) (hhex : ∀ c ∈ A, IsHex c)
+    (limit : Option Nat) (hl : ∀ l, limit = some l → l < 10 ^ 4300) :
+    parseUri serials (printUri dongle ch rate A limit) =
+      .ok ⟨devid, ch, rate.value, beBytes5 (hexValue A), limit.map Int.ofNat⟩ := by
+  obtain ⟨hq, ⟨fields, hf⟩, hlim⟩ := limitQuery_spec limit hl
+  have hs : ∀ s ∈ [natStr ch, rate.text, A], s ≠ [] ∧ ∀ c ∈ s, FieldChar c := by
+    intro s hs
+    simp only [List.mem_cons, List.mem_nil_iff, or_false] at hs
+    rcases hs with rfl | rfl | rfl
+    · exact ⟨natStr_ne_nil ch, fun c hc => (digit_chars (natStr_digits ch c hc)).1.1⟩
+    · exact rate_chars rate
+    · exact ⟨by intro e; subst e; simp at hA1, fun c hc => (hex_chars (hhex c hc)).1.1⟩
+  have hc : channelOfSegs [natStr ch, rate.text, A] = .ok (ch : Int) :=
+    pyInt_natStr (n := ch) (k := 2) (by omega) (by decide)
+  have ha : addrOfSegs [natStr ch, rate.text, A] = .ok (beBytes5 (hexValue A)) := addrOf_hex A hA1 hA10 hhex
+  have := parse_fields hd.chars hd.parses hs false hq hf hc ha hlim
+  simpa [printUri, rateOfSegs, rateOf_text] using this
+
+theorem parse_print_query_options_aux (serials : List Str) (dongle : Str) (devid : Nat) (hd : Dongle serials dongle devid)
+    (ch : Nat) (hch : ch ≤ 125) (rate : Rate)
+    (A : Str) (hA1 : 1 ≤ A.length) (hA10 : A.length ≤ 10) (hhex : ∀ c ∈ A, IsHex c)
+    (pre post : List (Str × Str)) (hpre : ∀ kv ∈ pre, OptOk kv ∧ kv.1 ≠ "rate_limit".toList) (hpost : ∀ kv ∈ post, OptOk kv)
+    (l : Nat) (hl : l < 10 ^ 4300) :
+    parseUri serials (mkUri dongle [natStr ch, rate.text, A] false
+        (some (queryText (pre ++ ("rate_limit".toList, natStr l) :: post)))) =
+      .ok ⟨devid, ch, rate.value, beBytes5 (hexValue A), some l⟩ := by
+  have hok : ∀ kv ∈ pre ++ ("rate_limit".toList, natStr l) :: post, OptOk kv := by
+    intro kv hkv
+    rcases List.mem_append.mp hkv with h | h
+    · exact (hpre kv h).1
+    · rcases List.mem_cons.mp h with rfl | h
+      · exact natStr_optOk _ rateLimit_key_chars l
+      · exact hpost kv h
+  have hp := parseQsl_queryText _ hok
+  have hfirst : qsFirst "rate_limit".toList (pre ++ ("rate_limit".toList, natStr l) :: post) = some (natStr l) := by
+    induction pre with
+    | nil => simp [qsFirst]
+    | cons kv pre ih =>
+      have hne := (hpre kv (by simp)).2
+      obtain ⟨k, v⟩ := kv
+      simp only [List.cons_append, qsFirst, hne, if_false]
+      exact ih (fun x hx => hpre x (by simp [hx])) (fun x hx => hok x (by simp at hx ⊢; right; exact hx)) 
+        (parseQsl_queryText _ (fun x hx => hok x (by simp at hx ⊢; right; exact hx)))
+  have hlim : rateLimitOf (queryText (pre ++ ("rate_limit".toList, natStr l) :: post)) = .ok (some (l : Int)) := by
+    rw [rateLimitOf_of_fields hp, rateLimitKey_eq, hfirst]
+    simp [pyInt_natStr (n := l) (k := 4299) hl (by decide), Except.map]
+  have hs : ∀ s ∈ [natStr ch, rate.text, A], s ≠ [] ∧ ∀ c ∈ s, FieldChar c := by
+    intro s hs
+    simp only [List.mem_cons, List.mem_nil_iff, or_false] at hs
+    rcases hs with rfl | rfl | rfl
+    · exact ⟨natStr_ne_nil ch, fun c hc => (digit_chars (natStr_digits ch c hc)).1.1⟩
+    · exact rate_chars rate
+    · exact ⟨by intro e; subst e; simp at hA1, fun c hc => (hex_chars (hhex c hc)).1.1⟩
+  have hc : channelOfSegs [natStr ch, rate.text, A] = .ok (ch : Int) :=
+    pyInt_natStr (n := ch) (k := 2) (by omega) (by decide)
+  have ha : addrOfSegs [natStr ch, rate.text, A] = .ok (beBytes5 (hexValue A)) := addrOf_hex A hA1 hA10 hhex
+  have := parse_fields hd.chars hd.parses hs false (query := some _) (fun q hq => by injection hq with hq; subst hq; exact queryText_chars _ hok)
+    (fields := _) hp hc ha hlim
+  simpa [rateOfSegs, rateOf_text] using this
 
 end CfVerif.C20
